@@ -265,6 +265,16 @@ func init() {
 				ax := []spatial.Vector3{{X: 1}, {Y: 1}, {Z: 1}, {X: -1}, {Y: -1}, {Z: -1}}
 				a, b = ax[rng.Intn(6)], ax[rng.Intn(6)]
 			}
+			if rng.Intn(6) == 0 { // very short and very long vectors: only the directions matter
+				ka := []float64{1e-11, 1e-20, 1e-6, 1e9, 1e15}[rng.Intn(5)]
+				kb := []float64{1e-11, 1e-20, 1e-6, 1e9, 1e15, 1}[rng.Intn(6)]
+				if n := a.Norm(); n > 0 {
+					a = a.Scale(ka / n)
+				}
+				if n := b.Norm(); n > 0 {
+					b = b.Scale(kb / n)
+				}
+			}
 			if rng.Intn(3) == 0 {
 				do("vnum", showVec(a), showVec(b))
 			} else {
